@@ -49,8 +49,8 @@ class Contract:
         for n, f in self.requires(E, cx, a):
             cx.oblige(f'call-pre.{short}.{n}@L{lineno}', f, 'call-pre', lineno)
         r = self.result(E, cx, a)
-        for n, f in self.ensures(E, cx, a, r):
-            cx.assume(f)
+        for item in self.ensures(E, cx, a, r):
+            cx.assume(item[1])
         return r
 
 
@@ -92,8 +92,13 @@ def verify(E, contract, label=None, args_order=None):
         covered['normal'] += 1
         for exc, cond in contract.must_raise(E, cx, a).items():
             cx.oblige(f'{label}/raises.{exc}.required', z3.Not(b2z(cond)), 'raises')
-        for n, f in contract.ensures(E, cx, a, r):
-            cx.oblige(f'{label}/post.{n}', f, 'post')
+        for item in contract.ensures(E, cx, a, r):
+            if isinstance(item, dict):
+                cx.oblige(f'{label}/post.{item["name"]}', item['goal'], 'post', pivots=item.get('pivots'),
+                          ground_only=item.get('ground', False))
+                continue
+            n, f = item[0], item[1]
+            cx.oblige(f'{label}/post.{n}', f, 'post', pivots=(item[2] if len(item) > 2 else None))
         return r
 
     n0 = len(E.all_obligations)
@@ -108,6 +113,23 @@ def verify(E, contract, label=None, args_order=None):
         if not ob.name.startswith(label + '/'):
             ob.name = f'{label}/{ob.name}'
     return {'function': q, 'paths': len(results), 'covered': covered, 'obligations': obs}
+
+
+def _inv_assume(cx, items):
+    for it in items:
+        cx.assume(it['goal'] if isinstance(it, dict) else it[1])
+
+
+def _inv_oblige(cx, items, prefix, kind, lineno):
+    for it in items:
+        if isinstance(it, dict):
+            goal = it['goal']
+            if it.get('hints'):
+                goal = z3.Implies(z3.And(*it['hints']), goal)
+            ob = cx.oblige(f'{prefix}.{it["name"]}', goal, kind, lineno, assume_after=False, ground_only=it.get('ground', False))
+            cx.assume(it['goal'])
+        else:
+            cx.oblige(f'{prefix}.{it[0]}', it[1], kind, lineno)
 
 
 class LoopSpec:
@@ -130,6 +152,9 @@ class LoopSpec:
 
     def ghost_step(self, E, cx, env, entry):
         """Ghost update performed after the loop body, before the invariant is re-established."""
+
+    def before_body(self, E, cx, env, entry):
+        """Hook at the start of the inductive-step iteration (after the loop variable is bound)."""
 
     # ------------------------------------------------------------------
     def _assigned(self, st):
@@ -170,14 +195,12 @@ class LoopSpec:
         unknown = self._check_modifies(st)
         lab = self._label(fr, st)
         entry = dict(fr.locals)
-        for n, f in self.inv(E, cx, fr.locals, entry):
-            cx.oblige(f'loop-init.{lab}.{n}', f, 'loop-init', st.lineno)
+        _inv_oblige(cx, self.inv(E, cx, fr.locals, entry), f'loop-init.{lab}', 'loop-init', st.lineno)
         ch = cx.choice(2, lab)
         fr.locals.update(self.havoc(E, cx, fr.locals, entry))
         self._havoc_unknown(E, cx, fr, unknown)
         self.after_havoc(E, cx, fr.locals, entry)
-        for n, f in self.inv(E, cx, fr.locals, entry):
-            cx.assume(f)
+        _inv_assume(cx, self.inv(E, cx, fr.locals, entry))
         c = E.eval(st.test, fr, cx)
         if ch == 0:
             self._assume_cond(E, cx, c, True)
@@ -189,8 +212,7 @@ class LoopSpec:
             except _Break:
                 return
             self.ghost_step(E, cx, fr.locals, entry)
-            for n, f in self.inv(E, cx, fr.locals, entry):
-                cx.oblige(f'loop-preserve.{lab}.{n}', f, 'loop-preserve', st.lineno)
+            _inv_oblige(cx, self.inv(E, cx, fr.locals, entry), f'loop-preserve.{lab}', 'loop-preserve', st.lineno)
             if m0 is not None:
                 m1 = self.measure(E, cx, fr.locals, entry)
                 self._decreases(cx, lab, m0, m1, st.lineno)
@@ -232,8 +254,7 @@ class LoopSpec:
         entry = dict(fr.locals)
         n_len = self.seq_len(E, cx, it)
         fr.locals[self.index_name] = 0
-        for n, f in self.inv(E, cx, fr.locals, entry):
-            cx.oblige(f'loop-init.{lab}.{n}', f, 'loop-init', st.lineno)
+        _inv_oblige(cx, self.inv(E, cx, fr.locals, entry), f'loop-init.{lab}', 'loop-init', st.lineno)
         ch = cx.choice(2, lab)
         fr.locals.update(self.havoc(E, cx, fr.locals, entry))
         self._havoc_unknown(E, cx, fr, unknown)
@@ -241,13 +262,13 @@ class LoopSpec:
         cx.assume(i.e >= 0)
         fr.locals[self.index_name] = i
         self.after_havoc(E, cx, fr.locals, entry)
-        for n, f in self.inv(E, cx, fr.locals, entry):
-            cx.assume(f)
+        _inv_assume(cx, self.inv(E, cx, fr.locals, entry))
         if ch == 0:
             cx.assume(i.e < b2z_int(n_len))
             if not cx.feasible():
                 raise PathEnd('no iteration')
             E.assign(st.target, self.seq_get(E, cx, it, i), fr, cx)
+            self.before_body(E, cx, fr.locals, entry)
             try:
                 E.exec_block(st.body, fr, cx)
             except _Continue:
@@ -257,8 +278,7 @@ class LoopSpec:
                 return
             fr.locals[self.index_name] = i + 1
             self.ghost_step(E, cx, fr.locals, entry)
-            for n, f in self.inv(E, cx, fr.locals, entry):
-                cx.oblige(f'loop-preserve.{lab}.{n}', f, 'loop-preserve', st.lineno)
+            _inv_oblige(cx, self.inv(E, cx, fr.locals, entry), f'loop-preserve.{lab}', 'loop-preserve', st.lineno)
             raise PathEnd('inductive step complete')
         else:
             cx.assume(i.e == b2z_int(n_len))
